@@ -14,6 +14,10 @@
 //             model object (line RF, reference), (3) the FIRST trainer object again with maxIterations = m and a fresh model
 //             object (line R): its report must not depend on call (1).  Line  N id m  gives m.
 //     Cneg == Cpos: the one-regulariser constructor is used, otherwise the two-regulariser one
+//   D id trainer bias shrink prec cachesize cachetype kernel kp1 kp2 Cneg Cpos eps param n d maxit  y_0..  x_00..  [w_0..]
+//     degenerate-geometry stream (cold start only): as T, plus kernel lin | rbf (kp1 = gamma) | poly (kp1 = degree,
+//     kp2 = offset; PolynomialKernel), the iteration limit maxit, and cachetype f|d for EVERY trainer
+//     (EpsilonSvmTrainer<RealVector,float> and OneClassSvmTrainer<RealVector,float> are the library defaults)
 // output:
 //   Q id k dims lin_0.. lo_0.. hi_0.. alpha0_0..     the problem as QpSolver::solve receives it (k-th solve of the case)
 //   M id k dims e_00 ..                               quadratic().entry(i,j) as the solver sees it (epssvr only)
@@ -38,6 +42,7 @@
 #include <shark/Algorithms/Trainers/OneClassSvmTrainer.h>
 #include <shark/Models/Kernels/LinearKernel.h>
 #include <shark/Models/Kernels/GaussianRbfKernel.h>
+#include <shark/Models/Kernels/PolynomialKernel.h>
 #include <shark/Data/WeightedDataset.h>
 
 static std::string g_id; static int g_k = 0; static bool g_matrix = false;
@@ -103,6 +108,7 @@ using namespace shark;
 struct Cfg {
 	std::string id, trainer, kernel, ctype;
 	int bias, shrink, prec, warm; std::size_t cachesize, n, d; double gamma, Cneg, Cpos, eps, param;
+	unsigned long long maxit; double kp2;          // D lines: iteration limit; second kernel parameter (polynomial offset)
 	std::vector<double> y; std::vector<RealVector> x; std::vector<double> w;
 };
 
@@ -113,7 +119,7 @@ void configure(Trainer& t, Cfg const& c, double eps) {
 	t.precomputeKernel() = c.prec != 0;
 	t.setCacheSize(c.cachesize);
 	t.stoppingCondition().minAccuracy = eps;
-	t.stoppingCondition().maxIterations = 2000000;
+	t.stoppingCondition().maxIterations = c.maxit;
 }
 
 template<class Trainer>
@@ -193,34 +199,46 @@ void runCsvm(Cfg const& c, AbstractKernelFunction<RealVector>* k) {
 	report(c, t, svm.decisionFunction());
 }
 
+static KernelExpansion<RealVector> const& identExpansion(KernelExpansion<RealVector>& f) { return f; }
+
+template<class CacheT>
+void runEpsSvr(Cfg const& c, AbstractKernelFunction<RealVector>* kernel) {
+	typedef EpsilonSvmTrainer<RealVector, CacheT> TrainerT;
+	std::vector<RealVector> lab(c.n, RealVector(1)); for (std::size_t i = 0; i < c.n; i++) lab[i](0) = c.y[i];
+	LabeledData<RealVector, RealVector> data = createLabeledDataFromRange(c.x, lab);
+	g_matrix = true;
+	auto make = [&]() -> TrainerT* { return new TrainerT(kernel, c.Cpos, c.param); };
+	auto run = [&](TrainerT& t, KernelExpansion<RealVector>& f) { t.train(f, data); };
+	if (c.warm == 4) { reuseStage<TrainerT, KernelExpansion<RealVector> >(c, make, run, identExpansion); return; }
+	std::unique_ptr<TrainerT> t(make()); KernelExpansion<RealVector> f;
+	configure(*t, c, c.eps); run(*t, f);
+	report(c, *t, f);
+}
+
+template<class CacheT>
+void runOneClass(Cfg const& c, AbstractKernelFunction<RealVector>* kernel) {
+	typedef OneClassSvmTrainer<RealVector, CacheT> TrainerT;
+	UnlabeledData<RealVector> data = createDataFromRange(c.x);
+	auto make = [&]() -> TrainerT* { return new TrainerT(kernel, c.param); };
+	auto run = [&](TrainerT& t, KernelExpansion<RealVector>& f) { t.train(f, data); };
+	if (c.warm == 4) { reuseStage<TrainerT, KernelExpansion<RealVector> >(c, make, run, identExpansion); return; }
+	std::unique_ptr<TrainerT> t(make()); KernelExpansion<RealVector> f;
+	configure(*t, c, c.eps); run(*t, f);
+	report(c, *t, f);
+}
+
 void runCase(Cfg const& c) {
 	std::unique_ptr<AbstractKernelFunction<RealVector> > kernel;
 	if (c.kernel == "lin") kernel.reset(new LinearKernel<RealVector>());
+	else if (c.kernel == "poly") kernel.reset(new PolynomialKernel<RealVector>((unsigned int)c.gamma, c.kp2));
 	else kernel.reset(new GaussianRbfKernel<RealVector>(c.gamma));
 	g_id = c.id; g_k = 0; g_matrix = false;
-	auto ident = [](KernelExpansion<RealVector>& f) -> KernelExpansion<RealVector> const& { return f; };
 	if (c.trainer == "csvm" || c.trainer == "csvmw" || c.trainer == "csvmu") {
 		if (c.ctype == "f") runCsvm<float>(c, kernel.get()); else runCsvm<double>(c, kernel.get());
 	} else if (c.trainer == "epssvr") {
-		typedef EpsilonSvmTrainer<RealVector, double> TrainerT;
-		std::vector<RealVector> lab(c.n, RealVector(1)); for (std::size_t i = 0; i < c.n; i++) lab[i](0) = c.y[i];
-		LabeledData<RealVector, RealVector> data = createLabeledDataFromRange(c.x, lab);
-		g_matrix = true;
-		auto make = [&]() -> TrainerT* { return new TrainerT(kernel.get(), c.Cpos, c.param); };
-		auto run = [&](TrainerT& t, KernelExpansion<RealVector>& f) { t.train(f, data); };
-		if (c.warm == 4) { reuseStage<TrainerT, KernelExpansion<RealVector> >(c, make, run, ident); return; }
-		std::unique_ptr<TrainerT> t(make()); KernelExpansion<RealVector> f;
-		configure(*t, c, c.eps); run(*t, f);
-		report(c, *t, f);
+		if (c.ctype == "f") runEpsSvr<float>(c, kernel.get()); else runEpsSvr<double>(c, kernel.get());
 	} else {
-		typedef OneClassSvmTrainer<RealVector, double> TrainerT;
-		UnlabeledData<RealVector> data = createDataFromRange(c.x);
-		auto make = [&]() -> TrainerT* { return new TrainerT(kernel.get(), c.param); };
-		auto run = [&](TrainerT& t, KernelExpansion<RealVector>& f) { t.train(f, data); };
-		if (c.warm == 4) { reuseStage<TrainerT, KernelExpansion<RealVector> >(c, make, run, ident); return; }
-		std::unique_ptr<TrainerT> t(make()); KernelExpansion<RealVector> f;
-		configure(*t, c, c.eps); run(*t, f);
-		report(c, *t, f);
+		if (c.ctype == "f") runOneClass<float>(c, kernel.get()); else runOneClass<double>(c, kernel.get());
 	}
 }
 
@@ -232,7 +250,11 @@ int main(int argc, char** argv) {
 		if (line.empty() || line[0] == '#') continue;
 		std::istringstream ss(line);
 		std::string tag, g, cn, cp, e, pa; Cfg c;
-		ss >> tag >> c.id >> c.trainer >> c.bias >> c.shrink >> c.prec >> c.cachesize >> c.ctype >> c.kernel >> g >> cn >> cp >> e >> pa >> c.n >> c.d >> c.warm;
+		ss >> tag >> c.id >> c.trainer >> c.bias >> c.shrink >> c.prec >> c.cachesize >> c.ctype >> c.kernel >> g;
+		c.maxit = 2000000; c.kp2 = 0.0;
+		if (tag == "D") { std::string k2; ss >> k2; c.kp2 = std::strtod(k2.c_str(), 0); }
+		ss >> cn >> cp >> e >> pa >> c.n >> c.d;
+		if (tag == "D") { c.warm = 0; ss >> c.maxit; } else ss >> c.warm;
 		c.gamma = std::strtod(g.c_str(), 0); c.Cneg = std::strtod(cn.c_str(), 0); c.Cpos = std::strtod(cp.c_str(), 0);
 		c.eps = std::strtod(e.c_str(), 0); c.param = std::strtod(pa.c_str(), 0);
 		c.y.resize(c.n); for (std::size_t i = 0; i < c.n; i++) { std::string t; ss >> t; c.y[i] = std::strtod(t.c_str(), 0); }
